@@ -8,18 +8,27 @@ CHECKS = {
   "C02": dict(level="exploration", technique="stateful property-based testing: generated insertion/policy histories interpreted against a vertex-set model with the independent L1-L3 oracle after every call",
      text="Model-based histories of insert / insert_with_statistics with state-relative points (on-facet, on-hull, duplicates, collinear bootstrap prefixes) and mid-history policy changes; invariant checked after every call; shrinks to minimal histories.",
      note="Vertex links demanded per insertion only under PLManifoldStrict; Delaunay level only under EveryN(1). Trusted: harness oracle.", ref="3 C02"),
+  "C04": dict(level="exploration", technique="stateful property-based testing, differential of six library verdicts against the exact big-integer empty-circumsphere oracle on deliberately non-Delaunay reachable states",
+     text="Legal flips, repair-less insertions and removals drive constructed triangulations away from Delaunay; on every independently valid state each validator's accept/reject is compared with the exact strict-violation list (soundness), and on general-position states with decidable determinants with the absence of violations (completeness).",
+     note="Only decidable (outside tolerance+rounding band) violations count. Known root causes are excluded per (validator family, cause).", ref="3 C04"),
   "C06": dict(level="exploration", technique="stateful property-based testing: generated removal/insertion histories (incl. draining to the bootstrap state, unknown vertices) with independent L1-L3 + exact Delaunay oracle and fingerprint equality",
      text="Every successful remove_vertex in generated histories is checked for vertex-set exactness, independent levels and (when repair is on and the pre-state was Delaunay) the exact Delaunay level; unknown vertices must be no-ops.",
      note="Returned cell count only constrained for unknown vertices. Known findings excluded by exact fact signature.", ref="3 C06"),
   "C07": dict(level="exploration", technique="stateful property-based testing with per-instance exhaustive handle enumeration: generated flip sequences and Pachner walks from a single simplex, every facet/ridge/edge/triangle/cell/vertex handle tried on a clone, metamorphic do/undo oracle plus independent combinatorial invariants",
      text="Every successful flip is checked for L1/L2, facet degrees, closed boundary, connectedness, Euler characteristic, boundary facet set, vertex set, prescribed cell-count change and exact FlipInfo contents, then undone through the inverse handle and compared with the original cell set.",
      note="Geometric embedding not demanded of the Edit API; a refused inverse move is recorded only.", ref="3 C07"),
+  "C08": dict(level="exploration", technique="stateful property-based testing: generated perturbation sequences then a repair call, judged by the independent L1-L3 oracle, the exact Delaunay oracle and the brute-force reference triangulation",
+     text="Certified convex pre-states moved away from Delaunay by generated flips/removals/insertions are repaired through both entry points; success must preserve the vertex set, the levels and yield an exactly Delaunay result (equal to the reference triangulation in general position).",
+     note="Flip budget not observable without hooks; admissibility gate follows the code's public predicate.", ref="3 C08"),
   "C09": dict(level="exploration", technique="stateful property-based testing: generated histories over insert/remove/Edit-API flips/repair/clone followed by probe insertions on the duplicate-tolerance ladder decided in exact rational arithmetic",
      text="After every step and for every final vertex, probes at 0..1e-6 from live vertices, with live UUIDs, and at former positions of removed vertices must get the outcome the property prescribes.",
      note="Tolerance 1e-10 with a 1e-6 relative band; probes only on triangulations with cells; serde round trips covered by C13.", ref="3 C09"),
   "C10": dict(level="exploration", technique="property-based testing with per-instance exhaustive query/hint grids against exact point-in-simplex and brute-force hull-side oracles",
      text="On independently certified triangulations every vertex, barycentre, facet/edge midpoint, hull point, beyond-hull point and bounding-box grid point is located under every kind of hint; the returned cell must contain the point exactly, Outside must mean strictly outside the hull, the class must not depend on the hint and the statistics variant must agree.",
      note="Only queries decidable against every facet hyperplane are judged. Stale keys modelled as same slot, later version.", ref="3 C10"),
+  "C11": dict(level="exploration", technique="stateful property-based testing: hull creation inside generated histories, exact visibility / hull-side oracle for the static part and a fingerprint-change oracle for staleness",
+     text="On certified states the hull must be exactly the one-cell facets, closed, with all vertices inside and all six queries exact for decidable query points; after any generated mutation that changes the vertex/cell/neighbour fingerprint every query must report staleness.",
+     note="Policy-only changes are not changes to the triangulation. Facets coplanar with the query (or in band) are not judged.", ref="3 C11"),
   "C12": dict(level="exploration", technique="property-based testing: exhaustive tiny-grid enumeration + proptest generation against an exact big-integer determinant oracle with an explicit tolerance/rounding band",
      text="Every predicate entry point (fast, robust x 4 configs, lifted, both kernels) is compared with the exact sign on every ordered tuple of the 3x3 grid and the unit cube and on generated D=2..5 tuples under vertex permutations; violations are shrunk by proptest. Sampling beyond the exhaustive grids: no absence claim.",
      note="Trusted: the harness' own BigInt/determinant code (unit- and identity-tested), the documented tolerance formula, the a-posteriori GEPP rounding bound (DESIGN 2.1).", ref="3 C12"),
